@@ -126,6 +126,7 @@ def run(ctx):
     pairs = sample_pairs(ctx, ctx.n(14, 10 ** 6))
     items = [(n, v, '%s-%d' % (n, ctx.seed)) for n, v in pairs]
     reqs, meta = [], []
+    ntraces = 0
     for i in range(0, len(items), 30):
         for out in pmap(work, items[i:i + 30]):
             if out['error']:
@@ -148,19 +149,23 @@ def run(ctx):
                     reqs.append(rec['req'])
                     meta.append((w, rec['headed']))
             R.sample(dict(basis=out['label'], cases=len(out['cases'])))
-    if ctx.model_ok and reqs:
-        ans = drive(reqs)
-        for a, (w, headed) in zip(ans, meta):
-            if 'drv_error' in a:
-                raise DriverError(a['drv_error'])
-            if a.get('text') != headed:
-                R.disagree('assemble', w, (a.get('text') or a.get('raise'))[:120], headed[:120], note='assembled text differs')
+        # the assembled texts are large (the whole store in 30 formats is tens of GB): compared batch by batch, not kept
+        if ctx.model_ok and reqs:
+            ans = drive(reqs)
+            for a, (w, headed) in zip(ans, meta):
+                if 'drv_error' in a:
+                    raise DriverError(a['drv_error'])
+                if a.get('text') != headed:
+                    R.disagree('assemble', w, (a.get('text') or a.get('raise'))[:120], headed[:120], note='assembled text differs')
+            ntraces += len(reqs)
+            reqs, meta = [], []
+    if ctx.model_ok:
         # splitlines on the nasty strings
         sl = drive([dict(op='splitlines', s=s) for s in NASTY])
         for a, s in zip(sl, NASTY):
             if a.get('lines') != s.splitlines(True):
                 R.disagree('splitlines', dict(s=s[:40]), a.get('lines'), s.splitlines(True))
-        R.extra['traces_validated_against_model'] = len(reqs) + len(NASTY)
+        R.extra['traces_validated_against_model'] = ntraces + len(NASTY)
     return R
 
 
